@@ -27,6 +27,36 @@ type state struct {
 	live [maxHandles]bool
 	lens [maxHandles]int // len/cap of the live handles (the relative alphabet derives sizes from them)
 	caps [maxHandles]int
+	// route: how the handle came to have len < cap (0: len == cap): 'M' Malloc rounded up, 'A'
+	// Append left spare capacity, 'R' shrinking Realloc, 'G' growing Realloc rounded up, 'X' caller reslice
+	route [maxHandles]byte
+}
+
+var routeName = map[byte]string{'M': "Malloc rounded up", 'A': "Append left spare capacity", 'R': "shrinking Realloc", 'G': "growing Realloc left spare capacity", 'X': "caller reslice"}
+
+// nextRoute: the route entry of the handle operation o worked on.
+func nextRoute(st *state, o op, lens, caps [maxHandles]int) [maxHandles]byte {
+	rt := st.route
+	h := o.H
+	switch {
+	case o.K == 'F' || lens[h] == caps[h]:
+		rt[h] = 0
+	case o.K == 'M':
+		rt[h] = 'M'
+	case o.K == 'A' || o.K == 'S':
+		if o.N > 0 || rt[h] == 0 {
+			rt[h] = 'A'
+		}
+	case o.K == 'X':
+		rt[h] = 'X'
+	case o.K == 'R' && o.N < st.lens[h]:
+		rt[h] = 'R'
+	case o.K == 'R' && o.N > st.caps[h]:
+		rt[h] = 'G'
+	case o.K == 'R' && rt[h] == 0:
+		rt[h] = 'R'
+	}
+	return rt
 }
 
 func relUsed(prog []op) int {
@@ -57,6 +87,11 @@ func succOps(c *acfg, st *state) []op {
 		if !l {
 			continue
 		}
+		if c.Ext {
+			// first, so that where a reslice and a Realloc lead to the same state the reslice is
+			// the representative history (route counters)
+			out = append(out, resliceOps(h, st.lens[h], st.caps[h])...)
+		}
 		for _, k := range c.Ks {
 			out = append(out, op{K: 'A', H: h, N: k})
 		}
@@ -67,8 +102,8 @@ func succOps(c *acfg, st *state) []op {
 			out = append(out, op{K: 'R', H: h, N: s})
 		}
 		out = append(out, op{K: 'F', H: h})
-		if c.Ext {
-			out = append(out, extOps(c, h, st.lens[h], st.caps[h], c.RelMax == 0 || relUsed(st.prog) < c.RelMax)...)
+		if c.Ext && (c.RelMax == 0 || relUsed(st.prog) < c.RelMax) {
+			out = append(out, relOps(c, h, st.lens[h], st.caps[h])...)
 		}
 	}
 	return out
@@ -146,7 +181,7 @@ func (s *searcher) expand(st *state, depth int, account bool, seen map[[16]byte]
 				if d0, ok := seen[r.key]; !ok || uint8(depth) < d0 {
 					seen[r.key] = uint8(depth)
 					isNew = !ok
-					*next = append(*next, &state{prog: prog, miss: r.choices, live: r.live, lens: r.lens, caps: r.caps})
+					*next = append(*next, &state{prog: prog, miss: r.choices, live: r.live, lens: r.lens, caps: r.caps, route: nextRoute(st, o, r.lens, r.caps)})
 				}
 			}
 			if account {
@@ -183,6 +218,9 @@ func (s *searcher) expand(st *state, depth int, account bool, seen map[[16]byte]
 				if o.K != 'M' && o.K != 'F' {
 					if g := growthClass(o, st.lens[o.H], st.caps[o.H]); g != "" {
 						p.Count("growth "+map[bool]string{false: "general", true: "extended"}[c.Ext]+" "+c.Kind+": "+g, 1)
+						if st.route[o.H] != 0 {
+							p.Count(fmt.Sprintf("growth beyond cap of a len<cap buffer, %s: %s after %s", c.Kind, o.name(), routeName[st.route[o.H]]), 1)
+						}
 					}
 				}
 				if r.reused && r.moved {
